@@ -534,8 +534,81 @@ func genC18Frozen(c *Ctx, nHist int) {
 	}
 }
 
+// genC18Observers: an observer goroutine spins on the cheap read operations (HasShare(last), EnoughShares, HasShare(last))
+// while the last required share is added with TrustedAdd; all other required shares were added by calls that had
+// returned. Any sequential order consistent with real time makes the three answers monotone: once HasShare(last) is
+// true the pool is complete, so a later EnoughShares is true, and conversely. Thousands of cheap trials (no pairing
+// is involved, the window between two internal updates of one add is tens of nanoseconds); the first trial with a
+// suspicious triple, and one ordinary trial, are handed to the model's linearizability check as full histories.
+func genC18Observers(c *Ctx, trials int) {
+	s := newThSetup(c, 3, 1)
+	last := s.t
+	share := make([]byte, 48) // TrustedAdd does not look at the contents; a canonical infinity share
+	share[0] = 0xc0
+	emitted := 0
+	for trial := 0; trial < trials && emitted < 2; trial++ {
+		insp, err := crypto.NewBLSThresholdSignatureInspector(s.group, s.pks, s.t, s.msg, s.tag)
+		if err != nil {
+			panic(err)
+		}
+		var clock int64
+		var toks []string
+		for i := 0; i < s.t; i++ {
+			inv := atomic.AddInt64(&clock, 1)
+			b, _ := insp.TrustedAdd(i, share)
+			res := atomic.AddInt64(&clock, 1)
+			toks = append(toks, fmt.Sprintf("%d,%d,T:%d:%s,%v", inv, res, i, hx(share), b))
+		}
+		type obs struct {
+			t [6]int64
+			v [3]bool
+		}
+		var spinning atomic.Bool
+		result := make(chan obs)
+		go func() {
+			for {
+				var o obs
+				o.t[0] = atomic.AddInt64(&clock, 1)
+				o.v[0], _ = insp.HasShare(last)
+				o.t[1] = atomic.AddInt64(&clock, 1)
+				o.t[2] = atomic.AddInt64(&clock, 1)
+				o.v[1] = insp.EnoughShares()
+				o.t[3] = atomic.AddInt64(&clock, 1)
+				o.t[4] = atomic.AddInt64(&clock, 1)
+				o.v[2], _ = insp.HasShare(last)
+				o.t[5] = atomic.AddInt64(&clock, 1)
+				bad := (o.v[0] && !o.v[1]) || (o.v[1] && !o.v[2]) || (o.v[0] && !o.v[2])
+				if bad || (o.v[0] && o.v[1] && o.v[2]) {
+					result <- o
+					return
+				}
+				spinning.Store(true)
+			}
+		}()
+		for !spinning.Load() {
+		}
+		inv := atomic.AddInt64(&clock, 1)
+		b, _ := insp.TrustedAdd(last, share)
+		res := atomic.AddInt64(&clock, 1)
+		toks = append(toks, fmt.Sprintf("%d,%d,T:%d:%s,%v", inv, res, last, hx(share), b))
+		o := <-result
+		bad := (o.v[0] && !o.v[1]) || (o.v[1] && !o.v[2]) || (o.v[0] && !o.v[2])
+		if bad || (emitted == 0 && trial == trials-1) || (trial == 0) {
+			toks = append(toks, fmt.Sprintf("%d,%d,H:%d,%v", o.t[0], o.t[1], last, o.v[0]),
+				fmt.Sprintf("%d,%d,E,%v", o.t[2], o.t[3], o.v[1]), fmt.Sprintf("%d,%d,H:%d,%v", o.t[4], o.t[5], last, o.v[2]))
+			class := "observer-history/ordinary"
+			if bad {
+				class = "observer-history/suspicious"
+				emitted = 2
+			}
+			c.Case(class, "th.lin "+s.envLine()+" "+strings.Join(toks, " "), "linearizable")
+		}
+	}
+}
+
 func genC18(c *Ctx) {
 	genC18Frozen(c, map[bool]int{false: 12, true: 300}[c.thorough()])
+	genC18Observers(c, map[bool]int{false: 20000, true: 400000}[c.thorough()])
 	nHist := 120
 	if c.thorough() {
 		nHist = 4000
